@@ -1,3 +1,2 @@
 package sim
 
-func checkC20(ix *index, add addFn) {}
